@@ -86,10 +86,19 @@ pub fn assert_owned() {
     }
 }
 
-/// Real wall-clock seconds (SystemTime is CLOCK_REALTIME and is not interposed).
+/// Real elapsed seconds for durations and deadlines (not the interposed virtual clock).
 pub fn wall_s() -> f64 {
-    std::time::SystemTime::now()
-        .duration_since(std::time::UNIX_EPOCH)
-        .map(|d| d.as_secs_f64())
-        .unwrap_or(0.0)
+    // (durations and deadlines only: a wall clock that is stepped while a check runs would end watched
+    // executions early)
+    mono_s()
+}
+
+/// Real monotonic seconds straight from the kernel (CLOCK_MONOTONIC_RAW through the raw syscall: neither
+/// the interposed virtual clock nor a wall clock that can be stepped while a check runs).
+pub fn mono_s() -> f64 {
+    let mut ts = libc::timespec { tv_sec: 0, tv_nsec: 0 };
+    unsafe {
+        libc::syscall(libc::SYS_clock_gettime, libc::CLOCK_MONOTONIC_RAW, &mut ts as *mut libc::timespec);
+    }
+    ts.tv_sec as f64 + ts.tv_nsec as f64 / 1e9
 }
